@@ -61,10 +61,13 @@ fn main() {
 
 fn dispatch(id: &str, tier: Tier) -> i32 {
     match id {
+        "C01" => props::c01::run(tier),
         "C06" => props::c06::run(tier),
         "C09" => props::c09::run(tier),
         "C11" => props::c11::run(tier),
+        "C12" => props::c12::run(tier),
         "C14" => props::c14::run(tier),
+        "C18" => props::c18::run(tier),
         _ => {
             eprintln!("MACHINERY-ERROR: no check registered for {}", id);
             2
